@@ -283,3 +283,11 @@ func decInts(s string) []*big.Int {
 	}
 	return r
 }
+
+func sortInts(xs []*big.Int) {
+	for a := 1; a < len(xs); a++ {
+		for b := a; b > 0 && xs[b-1].Cmp(xs[b]) > 0; b-- {
+			xs[b-1], xs[b] = xs[b], xs[b-1]
+		}
+	}
+}
